@@ -53,6 +53,7 @@ FldMatchG(s, f) == IF "kv" \in DOMAIN s
 LabelLower(f) == IF "llabel" \in DOMAIN f THEN f.llabel ELSE f.label
 Suppressed(f, S) == \E s \in S :
     \/ s.k = "cat" /\ s.cat = f.cat
+    \/ s.k = "catf" /\ s.cat = f.cat /\ FldMatchG(s, f)                  \* a whole category, narrowed by fields
     \/ s.k = "catlabel" /\ s.cat = f.cat /\ s.label = LabelLower(f)          \* category-scoped labels compare lower-cased
     \/ s.k = "catlabelf" /\ s.cat = f.cat /\ s.label = LabelLower(f) /\ FldMatchG(s, f)
     \/ s.k = "label" /\ s.label = f.label
